@@ -1105,6 +1105,10 @@ def lib_wire_pixels(rep):
         for dd, _ in R.find(f["body"], lambda x: x.get("k") == "Decl"):
             for v in dd["decls"]:
                 ct = v.get("ctype") or ""
+                # the buffer itself, or an iterator into it (the tiff reader reaches its buffer only through row_buffer_helper's iterators)
+                mi = re.match(r"__gnu_cxx::__normal_iterator<(boost::gil::pixel<.*>) \*, std::vector<boost::gil::pixel<", ct)
+                if mi:
+                    ct = "std::vector<%s>" % mi.group(1)
                 if not ct.startswith("std::vector<boost::gil::pixel<"):
                     continue
                 px = wire_pixel(ct)
